@@ -7,6 +7,7 @@
 #include "mini_json.h"
 #include <fstream>
 #include <sstream>
+#include <memory>
 using namespace SimTK;
 using std::string;
 
@@ -81,6 +82,8 @@ int main(int argc, char** argv) {
                     mb.push_back(MobilizedBody::SphericalCoords(P, XPF, body, XBM, angleOf(o["azOff"]), o["azNeg"].num() != 0, angleOf(o["zeOff"]), o["zeNeg"].num() != 0,
                                                                 o["axis"].str() == "x" ? CoordinateAxis(0) : CoordinateAxis(2), o["rNeg"].num() != 0, dir)); }
                 else if (t == "ellipsoid" || t == "ellipsoide") mb.push_back(MobilizedBody::Ellipsoid(P, XPF, body, XBM, vec(d["opt"]["radii"]), dir));
+                else if (t == "lineori" || t == "lineorie") mb.push_back(MobilizedBody::LineOrientation(P, XPF, body, XBM, dir));
+                else if (t == "freeline" || t == "freelinee") mb.push_back(MobilizedBody::FreeLine(P, XPF, body, XBM, dir));
                 else if (t == "ball" || t == "balle") mb.push_back(MobilizedBody::Ball(P, XPF, body, XBM, dir));
                 else if (t == "free" || t == "freee") mb.push_back(MobilizedBody::Free(P, XPF, body, XBM, dir));
                 else if (t == "weld") mb.push_back(MobilizedBody::Weld(P, XPF, body, XBM));
@@ -111,6 +114,8 @@ int main(int argc, char** argv) {
             }
             // force elements (spec: felems), all disabled by default so that the other phases see none of them
             std::vector<Force> fel;
+            std::unique_ptr<CableTrackerSubsystem> cables;
+            for (auto& e : c["felems"].arr()) if (e["type"].str() == "cable" && !cables) cables.reset(new CableTrackerSubsystem(system));
             for (auto& e : c["felems"].arr()) {
                 const string t = e["type"].str();
                 if (t == "gravity") fel.push_back(Force::Gravity(forces, matter, vec(e["g"])));
@@ -123,6 +128,12 @@ int main(int argc, char** argv) {
                 else if (t == "gdamper") fel.push_back(Force::GlobalDamper(forces, matter, e["c"].dbl()));
                 else if (t == "tpls") fel.push_back(Force::TwoPointLinearSpring(forces, mb[(int)e["b"].num()], vec(e["st"]), mb[(int)e["b2"].num()], vec(e["st2"]), e["c"].dbl(), e["x0"].dbl()));
                 else if (t == "tpld") fel.push_back(Force::TwoPointLinearDamper(forces, mb[(int)e["b"].num()], vec(e["st"]), mb[(int)e["b2"].num()], vec(e["st2"]), e["c"].dbl()));
+                else if (t == "cable") {      // a cable through points on bodies; disabled via points are obstacles disabled by default
+                    const mj::Value& pts = e["pts"]; const int np = (int)pts.size();
+                    CablePath path(*cables, mb[(int)pts[0]["b"].num()], vec(pts[0]["st"]), mb[(int)pts[np - 1]["b"].num()], vec(pts[np - 1]["st"]));
+                    for (int i = 1; i + 1 < np; ++i) { CableObstacle::ViaPoint vp(path, mb[(int)pts[i]["b"].num()], vec(pts[i]["st"])); if (!pts[i]["on"].num()) vp.setDisabledByDefault(true); }
+                    fel.push_back(CableSpring(forces, path, e["c"].dbl(), e["x0"].dbl(), e["diss"].dbl()));
+                }
                 else if (t == "tpcf") fel.push_back(Force::TwoPointConstantForce(forces, mb[(int)e["b"].num()], vec(e["st"]), mb[(int)e["b2"].num()], vec(e["st2"]), e["c"].dbl()));
                 else throw std::runtime_error("unknown force element " + t);
                 fel.back().setDisabledByDefault(true);
@@ -138,7 +149,8 @@ int main(int argc, char** argv) {
                     const string kinds = t == "pin" ? "a" : t == "slider" ? "l" : t == "universal" ? "aa" : t == "cylinder" ? "al"
                         : t == "bendstretch" ? "al" : t == "planar" ? "all" : t == "translation" ? "lll" : t == "gimbal" ? "aaa"
                         : t == "euler5" ? "aaall" : t == "bushing" ? "aaalll" : t == "ball" ? "cccc" : t == "free" ? "cccclll" : t == "balle" ? "aaa" : t == "freee" ? "aaalll"
-                        : t == "spherical" ? "aal" : t == "ellipsoid" ? "cccc" : t == "ellipsoide" ? "aaa" : "";
+                        : t == "spherical" ? "aal" : t == "ellipsoid" ? "cccc" : t == "ellipsoide" ? "aaa"
+                        : t == "lineori" ? "cccc" : t == "lineorie" ? "aaa" : t == "freeline" ? "cccclll" : t == "freelinee" ? "aaalll" : "";
                     if ((int)kinds.size() != mb[i + 1].getNumQ(st)) throw std::runtime_error("nq mismatch for " + t);
                     for (int k = 0; k < (int)kinds.size(); ++k) {
                         const mj::Value& qk = Q[i][k];
@@ -391,7 +403,7 @@ int main(int argc, char** argv) {
                     bool firstTp = true;
                     for (size_t k = 0; k < fel.size(); ++k) {
                         const string t = FE[(int)k]["type"].str();
-                        if (!(t == "tpls" || t == "tpld" || t == "tpcf") || !FE[(int)k]["on"].num()) continue;
+                        if (!(t == "tpls" || t == "tpld" || t == "tpcf" || t == "cable") || !FE[(int)k]["on"].num()) continue;
                         Vector_<SpatialVec> bf; Vector_<Vec3> pf; Vector mf; fel[k].calcForceContribution(sf, bf, pf, mf);
                         Vec3 ftot(0), mtot(0);
                         js << (firstTp ? "" : ",") << "{\"k\":" << k << ",\"W\":["; firstTp = false;
